@@ -83,6 +83,12 @@ def setup_vbf(K, dim, n_mark, reset):
     t0 = K.real("start_time")
     with object_array_modules(VB_MOD):
         cls = K.repo(f"{VB_MOD}:VirtualBoundaryForcing")
+        if K.mode != "sym":
+            # call history on the compiled code: the forcing object of ANOTHER body (other spacing, coefficients, marker
+            # count kept) was constructed first in the same process
+            cls(virtual_boundary_stiffness_coeff=2.0 * k + 1.0, virtual_boundary_damping_coeff=c - 1.0, grid_dim=dim,
+                dx=2.0 * dx, num_lag_nodes=n_mark, real_t=SymReal, enable_eul_grid_forcing_reset=not reset, num_threads=1,
+                start_time=t0 + 1.0)
         vbf = cls(virtual_boundary_stiffness_coeff=k, virtual_boundary_damping_coeff=c, grid_dim=dim, dx=dx,
                   num_lag_nodes=n_mark, real_t=SymReal, enable_eul_grid_forcing_reset=reset, num_threads=2,
                   start_time=t0)
